@@ -457,6 +457,15 @@ def rule_flow_sync(ctx):
             r.violate(nid, 'op-dropped-before-admitted-test', 'is_admitted', 'a path of the write-op consumer returns without having tested whether the '
                       'entry is already admitted: the weight change of an update op can be dropped', where=ctx.where(nid),
                       path=[fmt(c) + ' == ' + str(v) for c, v in p.conds][:6], expected='test entry.is_admitted() first; an admitted entry always books -old +new')
+    # MUST-clear-dirty: applying a write op always clears the entry's dirty flag (a dirty entry is skipped by eviction / expiry)
+    for p in paths:
+        cleared = any(e[0] == 'call' and str(e[1]).startswith('std::sync::atomic::') and str(e[1]).endswith('::store') and 'is_dirty' in fmt(e[2][0]) and e[2][1] == ('c', False) for e in p.events)
+        if not cleared:
+            r.instance(function=nid, event='path-without-dirty-reset')
+            r.violate(nid, 'dirty-not-cleared', 'is_dirty', 'a path of the write-op consumer does not clear is_dirty: the entry stays "being updated" for ever and the eviction / expiry scans skip it '
+                      '(a more recently used entry is evicted instead)', where=ctx.where(nid), path=[fmt(c)[:60] + ' == ' + str(v) for c, v in p.conds][:6],
+                      expected='entry.set_dirty(false) on every path')
+            break
     if (n_upd < 1 or n_adm < 2) and not r.violations:
         raise CheckFailure('FLOW-counters(sync): analysed %d update / %d admission paths in %s' % (n_upd, n_adm, nid))
     # other removal sites in maintenance and in invalidate
@@ -522,6 +531,28 @@ def rule_flow_sync(ctx):
             r.violate(cn, 'consumer-arms', 'WriteOp', 'the write-op consumer does not dispatch Upsert to the upsert role and Remove to the remove role', where=ctx.where(cn))
     if not cons:
         raise CheckFailure('FLOW-counters(sync): write-op consumer not found')
+    # FLOW-op-weights: what a write op carries is fixed when it is created
+    root = 'sync::base_cache::BaseCache::do_insert_with_hash'
+    if root in prog.bodies:
+        for c in sorted(prog.closures_of.get(root, [])):
+            for p in [q for q in ctx.symex(inline_depth=3).run(c) if not q.diverged]:
+                ups = [x for ev in p.events if ev[0] == 'write' for x in subterms(ev[2]) if isinstance(x, tuple) and x and x[0] == 'aggr' and x[2] == 'Upsert']
+                for u in ups:
+                    adt = prog.adts['common::concurrent::WriteOp']
+                    fn_ = [f['name'] for v_ in adt['variants'] if v_['name'] == 'Upsert' for f in v_['fields']]
+                    vals = dict(zip(fn_, u[3]))
+                    ow, nw = vals.get('old_weight'), vals.get('new_weight')
+                    is_update = any(ev[0] == 'call' and str(ev[1]).startswith('std::sync::atomic::') and 'policy_weight' in fmt(ev[2][0]) for ev in p.events)
+                    if is_update:
+                        okw = isinstance(ow, tuple) and ow[0] == 'call' and str(ow[1]).endswith('::load') and 'policy_weight' in fmt(ow)
+                    else:
+                        okw = ow == ('c', 0)
+                    okn = isinstance(nw, tuple) and nw[0] in ('fld', 'param', 'payload')
+                    r.instance(closure=c, kind='update' if is_update else 'insert', old_weight=fmt(ow)[:50], new_weight=fmt(nw)[:40], ok=okw and okn)
+                    if not (okw and okn):
+                        r.violate(c, 'op-weights', 'old=%s' % fmt(ow)[:30], 'the write op created by %s carries old_weight `%s` / new_weight `%s`: an update must carry the replaced entry\'s stored weight '
+                                  '(unconditionally -- it is applied after every earlier op of that entry), an insert 0, both the new weigher result' % (c, fmt(ow)[:50], fmt(nw)[:40]),
+                                  where=ctx.where(c), expected='Upsert { old_weight: entry.policy_weight() | 0, new_weight: weight }')
     # AUTH-counter-writers / MUST-publish
     maint = sorted(R.maintenance)
     for f in ('entry_count', 'weighted_size'):
@@ -543,6 +574,21 @@ def rule_flow_sync(ctx):
                     if any(rg[:3] == ('field', SYNC_INNER, f) for rg in ctx.eff.points[m].get(l, ())):
                         stores.append(bi)
             ok = any(s in pdom.get(0, set()) for s in stores)
+            # the snapshot the run starts from is loaded while the maintenance lock is held
+            dom_ = bm.dominators()
+            locks = [bi for bi, t in bm.calls() if prog.call_targets(bm, t)[1] in ('std::sync::Mutex::lock',)]
+            loads = []
+            for bi, t in bm.calls():
+                _, ext, _ = prog.call_targets(bm, t)
+                if ext and ext.endswith('AtomicCell::load'):
+                    l = op_local(t['args'][0])
+                    if any(rg[:3] == ('field', SYNC_INNER, f) for rg in ctx.eff.points[m].get(l, ())):
+                        loads.append(bi)
+            under = bool(locks) and all(any(lk in dom_.get(ld, ()) and lk != ld for lk in locks) for ld in loads)
+            r.instance(function=m, snapshot=f, loaded_under_maintenance_lock=under)
+            if loads and not under:
+                r.violate(m, 'snapshot-before-lock', f, 'the maintenance run loads Inner.%s before it holds the deques lock: a run that waited for the lock publishes counters computed from a stale snapshot '
+                          '(lost update when sync() overlaps housekeeping)' % f, where=ctx.where(m), expected='lock the deques first, then load the counters')
             r.instance(function=m, publish=f, store_postdominates_entry=ok)
             if not ok:
                 r.violate(m, 'publish', f, 'the maintenance run does not store Inner.%s on every normal path' % f, where=ctx.where(m))
